@@ -253,8 +253,12 @@ def plan(tier, seed):
             ("reshape", "f64", "f64", "MD", (2, 3), (3, 2)), ("reshape", "f64", "f64", "MD", (2, 2), (4, 1)), ("reshape", "f64", "f64", "MD", (2, 2), (1, 4)),
             ("reshape", "f64", "f64", "RD", (1, 4), (2, 2)), ("reshape", "f64", "f64", "RD", (1, 3), (3, 1)), ("reshape", "f64", "f64", "VD", (4, 1), (2, 2)),
             ("reshape", "f64", "f64", "VD", (3, 1), (1, 3)), ("reshape", "u8", "u16", "MD", (2, 3), (6, 1)), ("reshape", "f64", "u8", "RD", (1, 6), (2, 3)),
-            ("reshape", "u8", "u8", "VD", (6, 1), (3, 2)), ("reshape", "i16", "f64", "MD", (3, 2), (1, 6))]
-    qm = {0, 6, 9, 11}
+            ("reshape", "u8", "u8", "VD", (6, 1), (3, 2)), ("reshape", "i16", "f64", "MD", (3, 2), (1, 6)),
+            # float -> SIGNED integer elements (truncation toward zero of negative fractions; the matrix path has its own element cast,
+            # lossless_into_float_to_int!), signed -> unsigned clamping
+            ("convert", "f64", "i8", "RD", (1, 3), (1, 3)), ("convert", "f32", "i16", "MD", (2, 2), (2, 2)), ("convert", "f64", "i64", "VD", (2, 1), (2, 1)),
+            ("convert", "i16", "u8", "VD", (3, 1), (3, 1)), ("reshape", "f64", "i32", "MD", (2, 2), (4, 1))]
+    qm = {0, 6, 9, 11, 17, 18}
     for k, (fn, f, t, sf, sh, dm) in enumerate(mats):
         hs.append(gen_mat(fn, f, t, sf, sh, dm, "quick" if (k in qm or k % 5 == seed % 5) else "thorough"))
     l2m = [("f64", "f64", "MD", (2, 3), (3, 2), "accept"), ("f64", "f64", "MD", (2, 3), (2, 2), "reject"), ("f64", "f64", "RD", (1, 4), (2, 3), "reject"),
@@ -264,10 +268,14 @@ def plan(tier, seed):
     return {
         "harnesses": hs,
         "explanation": "Kani/CBMC over the conversion structs (ConvertScalarToScalar / ConvertScalarToScalarBasic with their LosslessInto / "
-                       "LossyFrom impls) for all 144 ordered pairs of primitive numeric kinds with the source value symbolic, and over the dispatch "
-                       "function impl_conversion_fxn for a sample of pairs",
-        "bounds": "scalars: all bit patterns, all 144 ordered pairs x both structs in both tiers",
-        "outside": ["impl_conversion_fxn dispatch: which struct family a pair is routed to, and `no conversion => error` (no verdict within 15 min; see generator)", "matrix conversion and reshape (ConvertMatToMat2, create_reshape_mat_to_mat)", "matrix -> set", "rational / complex / string "
+                       "LossyFrom impls) for all 144 ordered pairs of primitive numeric kinds with the source value symbolic, over the dispatch "
+                       "function impl_conversion_fxn for a sample of pairs, and over matrix conversion / column-major reshape (create_*_mat_to_mat and "
+                       "impl_conversion_mat_to_mat_fxn) with symbolic elements",
+        "bounds": "scalars: all bit patterns, all 144 ordered pairs x both structs in both tiers; matrices: create_convert_mat_to_mat / "
+                  "create_reshape_mat_to_mat for sources of <= 6 symbolic elements in the three storage forms, 6 kind pairs; "
+                  "impl_conversion_mat_to_mat_fxn (dispatch, element-count check) for 5 shape pairs",
+        "outside": ["impl_conversion_fxn dispatch for scalars: which struct family a pair is routed to, and `no conversion => error` (no verdict within 15 min; see generator)",
+                    "matrix conversion for kind pairs other than the sampled ones (the element cast is the scalar one, decided for all 144 pairs)", "matrix -> set", "rational / complex / string "
                     "targets", "Value::convert_to", "kind annotation syntax -> ConvertKind call (statements.rs)"],
         "caps": {"quick_timeout": 900, "thorough_timeout": 1800, "heavy_jobs": 6, "heavy_rss_gb": 9},
     }
